@@ -103,6 +103,35 @@ theorem table_growth (b : Ctx) (fuel : Nat) (bursts : List (List Wire)) (s : Slo
     (hs : s ∈ (run b fuel {} bursts).table) : s.o ∈ known b.root (run b fuel {} bursts).log :=
   (reachable_inv b fuel bursts).tbl s hs
 
+/-- (2) **what the peer holds is what was boxed for it**: every entry of the table was put there by `_box`
+(`_local_objects.add`) under that very id pack - the `lent` events of the log are exactly the objects passed by
+reference in frames written to this peer (results, callback arguments, the root) -/
+theorem table_only_lent (b : Ctx) (fuel : Nat) (bursts : List (List Wire)) (s : Slot)
+    (hs : s ∈ (run b fuel {} bursts).table) : Ev.lent s.key s.o ∈ (run b fuel {} bursts).log :=
+  (reachable_inv b fuel bursts).lent s hs
+
+/-- (2) **a LOCAL_REF yields only an object that was lent to this peer on this connection**: in every reachable state, an
+identifier the table knows unboxes to the object stored under it, and that object was boxed for this peer under the
+stored id pack; the objects the environment merely returned to the protocol (`known`: modules looked up, `type(obj)`,
+attribute values not yet sent) are NOT reachable by identifier unless and until they are boxed -/
+theorem local_ref_only_lent (b : Ctx) (fuel : Nat) (bursts : List (List Wire)) (c : Ctx) (fut : List Wire) (f : Nat)
+    (key : Val) (s : Slot) (h : lookupSlot (run b fuel {} bursts).table key = some s) :
+    unbox (f + 1) (.tuple [.int Gen.Handlers.labelLocalRef, key]) c (run b fuel {} bursts) fut
+        = ⟨.ok (.obj s.o), run b fuel {} bursts, fut⟩
+      ∧ Ev.lent s.key s.o ∈ (run b fuel {} bursts).log := by
+  refine ⟨?_, table_only_lent b fuel bursts s (List.mem_of_find?_eq_some h)⟩
+  have e2 : pyEqNat (.int Gen.Handlers.labelLocalRef) Gen.Handlers.labelTuple = false := by
+    rw [pyEqNat_int]; decide
+  have e3 : pyEqNat (.int Gen.Handlers.labelLocalRef) Gen.Handlers.labelLocalRef = true := by
+    rw [pyEqNat_int]; decide
+  simp [unbox, resolve, unbox2, unpack2, iterVal, Handlers.liftE, Bind.bind, Pure.pure, e2, e3, tableGet, h]
+
+/-- (2) whatever was lent had been handed to the protocol code by the environment (a result of a performed operation,
+an argument the service chose to send) or is the root: `lent ⊆ known`, and only `lent` is nameable by the peer -/
+theorem lent_known (b : Ctx) (fuel : Nat) (bursts : List (List Wire)) (k : Val) (o : Nat)
+    (h : Ev.lent k o ∈ (run b fuel {} bursts).log) : o ∈ known b.root (run b fuel {} bursts).log :=
+  (reachable_inv b fuel bursts).lentK k o h
+
 /-- (2) **LOCAL_REF resolves only through this connection's table**: in ANY state, an identifier that is not a key
 of the table (forged, stale, harvested from another connection) makes `_unbox` raise `KeyError` and changes nothing;
 an identifier that is a key yields exactly the object stored under it. -/
@@ -225,13 +254,13 @@ def evTag : Ev → String
   | .request _ => "request" | .touch t => (if t.kind == .probe then "probe" else if t.kind == .hookLookup then "hook?"
       else if t.kind == .attr .get then "getattr" else if t.kind == .idpack then "idpack" else if t.kind == .cleanup then "cleanup" else "touch")
   | .answer _ => "answer" | .reply _ _ => "reply" | .exc _ cls => "exc:" ++ cls | .ignored _ => "ignored"
-  | .ended cls => "ended:" ++ cls | .outReq _ _ _ => "req" | .cleaned => "cleaned" | _ => "other"
+  | .ended cls => "ended:" ++ cls | .outReq _ _ _ => "req" | .cleaned => "cleaned" | .lent _ _ => "lent" | _ => "other"
 
 /-- the whole history, event by event: `secret` is refused after one probe and no access; the forged id is refused with
 KeyError before anything is touched; `val` is served through its exposed twin; the stray reply is ignored; the
 non-message ends the connection (HANDLE_CLOSE to the peer, cleanup, `on_disconnect`) -/
 example : (run sampleCtx 20 {} sampleMsgs).log.map evTag =
-    ["request", "idpack", "answer", "reply",
+    ["request", "idpack", "answer", "lent", "reply",
      "request", "hook?", "answer", "probe", "answer", "exc:AttributeError",
      "request", "exc:KeyError",
      "request", "hook?", "answer", "probe", "answer", "getattr", "answer", "reply",
